@@ -145,3 +145,33 @@ GROUPS = {
     "moon_riseset": gen_riseset,
     "moon_phase": gen_phase,
 }
+
+
+def _phase_chunk(rng_):
+    import struct as _st
+    lo, hi = rng_
+    fromord = datetime.date.fromordinal
+    ph = moon.phase
+    out = []
+    for o in range(lo, hi):
+        v = ph(fromord(o))
+        if type(v) is float:
+            out.append("F%016x" % _st.unpack("<Q", _st.pack("<d", v))[0])
+        else:
+            out.append("X%s" % type(v).__name__)
+    return out
+
+
+def phase_all_dates_bulk():
+    """every date 0001-01-01 … 9999-12-31 (the property quantifies over all of them), computed
+    on all cores; returns (function, requests, expected, describe)"""
+    import multiprocessing
+    N = 3652059
+    step = 60000
+    chunks = [(lo, min(lo + step, N + 1)) for lo in range(1, N + 1, step)]
+    with multiprocessing.Pool(min(16, multiprocessing.cpu_count())) as pool:
+        parts = pool.map(_phase_chunk, chunks)
+    expected = [x for part in parts for x in part]
+    requests = ["phase I%d" % o for o in range(1, N + 1)]
+    return "phase", requests, expected, (lambda i: {"ordinal": i + 1,
+                                                    "date": str(datetime.date.fromordinal(i + 1))})
